@@ -127,7 +127,7 @@ let profiles = [
              "rf_arr", 25];
   "catch", ["id_catch", 100; "id_repeat", 3; "catch", 60; "fault", 22; "nilp", 12; "nfuncs_min", 2; "nfuncs_max", 4;
             "i_call", 22; "it_call", 14; "it_loop", 10; "t_rec", 14; "t_arr", 14; "it_func", 10];
-  "tailrec", ["id_tail", 100; "id_repeat", 2; "f_tail", 30; "id_mutual", 40; "budget_main", 12000; "tail_lo", 200; "tail_hi", 700;
+  "tailrec", ["id_tail", 100; "f_tail", 0; "f_rec", 30; "id_mutual", 40; "budget_main", 7000; "tail_lo", 150; "tail_hi", 450;
               "nfuncs_max", 2; "main_items", 3; "depth", 2];
   "mix", ["id_counter", 15; "id_adder", 10; "id_loopcap", 10; "id_reccap", 10; "id_compose", 10; "id_alias", 25;
           "id_catch", 25; "id_shadow", 15; "id_order", 20; "id_agg", 20; "shadow", 15; "catch", 20; "fault", 8;
